@@ -234,7 +234,7 @@ Proof.
   { intros s' S'. apply K. rewrite (same_ctl_stof _ _ S' j). apply trk_same. }
   assert (D : forall k r s1, co_destroy k s = (r, s1) ->
               tr (stof s j) (stof s1 j) /\ (j <> k -> stof s1 j = stof s j)).
-  { intros k r s1 R. unfold co_destroy in R.
+  { intros k r s1 R. unfold co_destroy, co_destroy_with in R.
     destruct (gcon s && DESTROY_UNREGISTERS_FIRST).
     - destruct (gc_unregister k s) as [s0|] eqn:U; [|inversion R; subst; split; [constructor|reflexivity]].
       pose proof (gc_unregister_Inv _ _ _ I U) as I0.
